@@ -4,6 +4,8 @@ import (
 	"encoding/base64"
 	"encoding/json"
 	"fmt"
+	"os"
+	"path/filepath"
 	"strings"
 	"time"
 
@@ -64,6 +66,11 @@ type c20Input struct {
 func replayC20(sub string, in json.RawMessage) *fw.Violation {
 	var d c20Input
 	json.Unmarshal(in, &d)
+	if d.Kind == "mixed" {
+		var m c20MixedInput
+		json.Unmarshal(in, &m)
+		return c20MixedCase(m)
+	}
 	switch d.Kind {
 	case "corrupt":
 		return c20Decrypt(d, false)
@@ -125,7 +132,11 @@ func runC20(w *fw.Worker) {
 			continue // an empty answer cannot be sealed
 		}
 		d := c20Input{Kind: "fm-roundtrip", Answer: a}
-		w.RunCase(fmt.Sprint("fmrt", ai), func() *fw.Violation { w.Nontrivial(); w.Count("frontmatter-roundtrips", 1); return c20FrontmatterRoundtrip(d) })
+		w.RunCase(fmt.Sprint("fmrt", ai), func() *fw.Violation {
+			w.Nontrivial()
+			w.Count("frontmatter-roundtrips", 1)
+			return c20FrontmatterRoundtrip(d)
+		})
 	}
 	// (2) corruptions
 	corruptAnswers := []string{"a", "a, c", "€ é", strings.Repeat("abcdefghij", 30)}
@@ -208,8 +219,13 @@ func runC20(w *fw.Worker) {
 		maxN = 5
 	}
 	outputs := []string{"x", "y", "z"} // index 0 matches the question
+	// (4c) text and image questions over the same program files, verified one after the other in one process: the verdict on a
+	// question does not depend on which questions were verified before it (outputs are a function of program AND result type)
+	if w.Shard == 0 || w.NShards == 1 {
+		c20MixedModes(w)
+	}
 	// (4b) outputs that differ from the question's output only in white space do not match: choices are programs, the question shows the output "hi\n"
-	progs := []string{"print \"hi\"", "print \" hi\"", "print \"hi\"\n  print", "print \"hi \"", "print \"ho\""} // index 0 matches
+	progs := []string{"print \"hi\"", "print \" hi\"", "print \"hi\"\n  print", "print \"hi \"", "print \"ho\"", "printf \"hi\""} // index 0 matches; the last one lacks the final newline
 	for _, atype := range []string{"multiple-choice", "single-choice"} {
 		for n := 2; n <= 3; n++ {
 			total := 1
@@ -343,6 +359,96 @@ func c20FrontmatterRoundtrip(d c20Input) *fw.Violation {
 		return viol("fm-roundtrip-differs", fmt.Sprintf("%q", fw.Trunc(m.Frontmatter.Answer, 100)))
 	}
 	return nil
+}
+
+type c20MixedInput struct {
+	Kind    string   `json:"kind"`
+	History []string `json:"verified_before"` // "text" / "image", each with its correct marking
+	Subject string   `json:"question"`
+	Answer  string   `json:"answer"`
+	Want    bool     `json:"want_accept"`
+}
+
+var c20MixedFiles = map[string]string{
+	"a.evy": "print \"x\"\ncircle 10\n", "b.evy": "print \"x\"\ncircle 40\n", "c.evy": "circle 10\n", "d.evy": "print \"y\"\ncircle 10\n",
+}
+
+const c20TextMD = "Which programs print the following?\n\n```\nx\n```\n\n- [answer](a.evy \"evy:source\")\n- [answer](b.evy \"evy:source\")\n- [answer](c.evy \"evy:source\")\n- [answer](d.evy \"evy:source\")\n"
+const c20ImageMD = "Which programs draw the same picture as this one?\n\n[question](a.evy \"evy:svg\")\n\n- [answer](b.evy \"evy:source\")\n- [answer](c.evy \"evy:source\")\n- [answer](d.evy \"evy:source\")\n"
+
+// c20MixedVerify verifies one question of the mixed-mode family in dir.
+func c20MixedVerify(dir, subject, answer string) error {
+	md, name := c20TextMD, "q-text.md"
+	if subject == "image" {
+		md, name = c20ImageMD, "q-img.md"
+	}
+	fm := "type: question\ndifficulty: easy\nanswer-type: multiple-choice\nanswer: " + answer + "\n"
+	m, err := learn.NewQuestionModel(filepath.Join(dir, name), learn.WithRawMD(fm, md))
+	if err != nil {
+		return fmt.Errorf("construction: %w", err)
+	}
+	return m.Verify()
+}
+
+func c20MixedCase(in c20MixedInput) *fw.Violation {
+	dir, err := os.MkdirTemp(os.Getenv("VERIF_BUILD_DIR"), "learn-")
+	if err != nil {
+		panic(err)
+	}
+	defer os.RemoveAll(dir)
+	qdir := filepath.Join(dir, "course", "unit", "exercise")
+	os.MkdirAll(qdir, 0o777)
+	for n, src := range c20MixedFiles {
+		os.WriteFile(filepath.Join(qdir, n), []byte(src), 0o666)
+	}
+	correct := map[string]string{"text": "a, b", "image": "b, c"}
+	for _, h := range in.History {
+		if err := c20MixedVerify(qdir, h, correct[h]); err != nil {
+			return &fw.Violation{Sub: "mixed", Signature: "mixed-history-rejects-right-key", What: "a correctly marked question is rejected", Input: in, Expected: "accepted", Observed: err.Error()}
+		}
+	}
+	err = c20MixedVerify(qdir, in.Subject, in.Answer)
+	if err != nil && strings.HasPrefix(err.Error(), "construction") {
+		panic("C20: cannot build the mixed-mode question: " + err.Error())
+	}
+	if (err == nil) != in.Want {
+		sig := "mixed-accepts-wrong-key"
+		if in.Want {
+			sig = "mixed-rejects-right-key"
+		}
+		return &fw.Violation{Sub: "mixed", Signature: sig, What: "the verdict on a question depends on what was verified before it in the same process (or is wrong on its own)", Input: in,
+			Expected: fmt.Sprint("accept=", in.Want), Observed: fmt.Sprint("accept=", err == nil, " ", err)}
+	}
+	return nil
+}
+
+func c20MixedModes(w *fw.Worker) {
+	nChoices := map[string]int{"text": 4, "image": 3}
+	match := map[string]map[string]bool{"text": {"a": true, "b": true}, "image": {"b": true, "c": true}}
+	histories := [][]string{nil, {"text"}, {"image"}, {"text", "image"}, {"image", "text"}, {"text", "text"}, {"image", "image"}}
+	for _, h := range histories {
+		for _, subject := range []string{"text", "image"} {
+			n := nChoices[subject]
+			for mask := 1; mask < 1<<n; mask++ {
+				var marked []string
+				want := true
+				for i := 0; i < n; i++ {
+					l := string(rune('a' + i))
+					on := mask&(1<<i) != 0
+					if on {
+						marked = append(marked, l)
+					}
+					want = want && on == match[subject][l]
+				}
+				in := c20MixedInput{Kind: "mixed", History: h, Subject: subject, Answer: strings.Join(marked, ", "), Want: want}
+				w.RunCase(fmt.Sprint("mixed", h, subject, marked), func() *fw.Violation {
+					w.Nontrivial()
+					w.Count("mixed-mode-questions", 1)
+					return c20MixedCase(in)
+				})
+			}
+		}
+	}
 }
 
 func c20Question(d c20Input) *fw.Violation {
